@@ -132,6 +132,16 @@ func init() {
 		"internal/stringslite.Index": func(i *interpreter, fr *frame, fn *ssa.Function, args []value) value {
 			return strings.Index(args[0].(string), args[1].(string))
 		},
+		"math/bits.TrailingZeros32": func(i *interpreter, fr *frame, fn *ssa.Function, args []value) value { return bitsTZ(args[0], 32) },
+		"math/bits.TrailingZeros64": func(i *interpreter, fr *frame, fn *ssa.Function, args []value) value { return bitsTZ(args[0], 64) },
+		"math/bits.TrailingZeros16": func(i *interpreter, fr *frame, fn *ssa.Function, args []value) value { return bitsTZ(args[0], 16) },
+		"math/bits.TrailingZeros8":  func(i *interpreter, fr *frame, fn *ssa.Function, args []value) value { return bitsTZ(args[0], 8) },
+		"math/bits.LeadingZeros32":  func(i *interpreter, fr *frame, fn *ssa.Function, args []value) value { return bitsLZ(args[0], 32) },
+		"math/bits.LeadingZeros64":  func(i *interpreter, fr *frame, fn *ssa.Function, args []value) value { return bitsLZ(args[0], 64) },
+		"math/bits.OnesCount32":     func(i *interpreter, fr *frame, fn *ssa.Function, args []value) value { return bitsPop(args[0], 32) },
+		"math/bits.OnesCount64":     func(i *interpreter, fr *frame, fn *ssa.Function, args []value) value { return bitsPop(args[0], 64) },
+		"sort.Slice":       sortSlice,
+		"sort.SliceStable": sortSlice,
 		"strings.Compare": func(i *interpreter, fr *frame, fn *ssa.Function, args []value) value {
 			a, aok := args[0].(string)
 			b, bok := args[1].(string)
@@ -290,6 +300,13 @@ func (i *interpreter) callSpecial(fr *frame, fn *ssa.Function, args []value) (va
 		switch fn.Pkg.Pkg.Path() {
 		case "sync/atomic", "internal/runtime/atomic":
 			return i.atomicOp(fn, args), true
+		case "github.com/golang/protobuf/proto", "google.golang.org/protobuf/encoding/prototext", "google.golang.org/protobuf/proto":
+			// text/wire formatting of protobuf messages (reflection-driven): only
+			// used for logging in the code under test
+			i.w.stubs["protobuf formatting/marshalling ("+fn.Name()+": zero result)"]++
+			return stubZeroResults(i, fr, fn, args), true
+		case "reflect":
+			unsupported("reflection (%s)", fn.String())
 		case "github.com/wmnsk/go-pfcp/internal/logger":
 			i.w.stubs["go-pfcp internal logger (no-op)"]++
 			return stubZeroResults(i, fr, fn, args), true
@@ -771,4 +788,72 @@ func renderOperand(o value) string {
 		return "<sym>"
 	}
 	return "<v>"
+}
+
+// sortSlice models sort.Slice / sort.SliceStable (reflection-based swapper)
+// by a stable insertion sort driven by the interpreted less function.
+func sortSlice(i *interpreter, fr *frame, fn *ssa.Function, args []value) value {
+	s, ok := args[0].(iface).v.([]value)
+	if !ok {
+		unsupported("sort.Slice of a non-slice")
+	}
+	less := args[1]
+	for a := 1; a < len(s); a++ {
+		for b := a; b > 0; b-- {
+			r := call(i, fr, 0, less, []value{b, b - 1})
+			if !i.decideValue(r, "sort.Slice less") {
+				break
+			}
+			// swap through set so that the undo trail sees it; less() reads the slice in place
+			x, y := s[b], s[b-1]
+			i.set(&s[b], y)
+			i.set(&s[b-1], x)
+		}
+	}
+	return nil
+}
+
+// math/bits on symbolic operands: branch-free terms (the library versions use
+// de Bruijn table lookups, i.e. a symbolic index).
+func bitsTZ(x value, w int) value {
+	_, t := termOf(x)
+	if t.isConst() {
+		n := 0
+		for n < w && t.k&(1<<uint(n)) == 0 {
+			n++
+		}
+		return n
+	}
+	r := mkConst(64, uint64(w))
+	for b := w - 1; b >= 0; b-- {
+		bit := mkNot(mkEq(mkExtract(t, b, b), mkConst(1, 0)))
+		r = mkIte(bit, mkConst(64, uint64(b)), r)
+	}
+	return mkSym(types.Int, r)
+}
+
+func bitsLZ(x value, w int) value {
+	_, t := termOf(x)
+	if t.isConst() {
+		n := 0
+		for n < w && t.k&(1<<uint(w-1-n)) == 0 {
+			n++
+		}
+		return n
+	}
+	r := mkConst(64, uint64(w))
+	for b := 0; b < w; b++ {
+		bit := mkNot(mkEq(mkExtract(t, b, b), mkConst(1, 0)))
+		r = mkIte(bit, mkConst(64, uint64(w-1-b)), r)
+	}
+	return mkSym(types.Int, r)
+}
+
+func bitsPop(x value, w int) value {
+	_, t := termOf(x)
+	r := mkConst(64, 0)
+	for b := 0; b < w; b++ {
+		r = mkBin(OpAdd, r, mkResize(mkExtract(t, b, b), 64, false))
+	}
+	return mkSym(types.Int, r)
 }
